@@ -137,6 +137,19 @@ def register(M):
             return Adt(dty, {(0, 0): inner}, 0, None)
         return Adt(dty, {(1, 0): Ref(cell, path + (('f', 1, 0, g[1] if len(g) > 1 else '?'),))}, 1, None)
 
+    @reg('Result::as_deref_mut')
+    def _(ex, info, a, dty):
+        cell, path = ex.deref(a[0])
+        o = ex.materialize(ex.read_path(cell, path))
+        g = generic_args(o.ty if isinstance(o, Adt) else '')
+        d = M.discr(ex, o)
+        if ex.branch(d == bv(0)):
+            okty = g[0] if g else '?'
+            r = Ref(cell, path + (('f', 0, 0, okty),))
+            inner = ex.call_named('<%s as DerefMut>::deref_mut' % okty, [r], None)
+            return Adt(dty, {(0, 0): inner}, 0, None)
+        return Adt(dty, {(1, 0): Ref(cell, path + (('f', 1, 0, g[1] if len(g) > 1 else '?'),))}, 1, None)
+
     @reg('Option::as_deref')
     def _(ex, info, a, dty):
         cell, path = ex.deref(a[0])
